@@ -91,9 +91,20 @@ _state = {}
 
 
 def tools_dir():
+    """Private snapshot (bin/ of the four tools + lib/) of the plain build of the current working tree: the build cache
+    keeps only a few trees and another check may prune this one while the run is in progress."""
     if 'b' not in _state:
-        _state['b'] = build.core('plain')
-        _state['env'] = build.env(_state['b'])
+        import atexit
+        src = build.core('plain')
+        snap = tempfile.mkdtemp(prefix='c04tools', dir='/dev/shm')
+        atexit.register(shutil.rmtree, snap, True)
+        os.mkdir(os.path.join(snap, 'bin'))
+        for t in TOOLS:
+            shutil.copy2(os.path.join(src, 'bin', t), os.path.join(snap, 'bin', t))
+        shutil.copytree(os.path.join(src, 'lib'), os.path.join(snap, 'lib'), symlinks=True)
+        _state['b'] = snap
+        _state['src'] = src
+        _state['env'] = build.env(snap)
     return _state['b']
 
 
